@@ -32,6 +32,17 @@ other, with a component between them on modes the later swap does not touch, beh
 non-adjacent modes, grouped blocks - so that a rewrite of one member really rewrites components the others still hold.
 `shape_family*` are the directed forms, `gen_family` the random one; the frame oracle (every live object compared with
 its own snapshot after every call) is the one of the other streams.
+
+CALLER-OWNED DATA (circgen_ext.Client; `with_client`, `shape_client_*`).  The arguments that are not circuits - the
+ndarray a unitary block is read from, the dictionary of mode_swaps, the list of barrier - belong to the client, who
+RE-USES them: one work buffer (per size / the corner of one large array / column-major) refilled for every block, one
+dict and one list refilled for every call, and at arbitrary points overwritten, cleared, refilled (["scrub", kind, how]);
+matrices / dicts the library hands out (U, U_full, heralds) are written into (["scribble", id, attr, how]).  Two
+clauses: (i) a call leaves the container it was given exactly as the client filled it (the argument is not modified, also
+when the call raises); (ii) a step in which NO call is made (the client touches its own memory) changes no live object,
+and a call that builds one object from a re-filled container changes no other object (the frame oracle, unchanged).
+The model sees values only (pseudo-ops are dropped), so these are oracle clauses; the correspondence with the model is
+checked on the real calls as before.
 """
 
 from __future__ import annotations
@@ -608,12 +619,36 @@ def run_case(ctx: Ctx, prog: list, ids: list, model: bool = True) -> list[str]:
     params: dict = {}
     res = []
     snaps_after = []
+    client = cx.client_of(prog)  # the client's own containers (None: a fresh array / dict / list per call)
+    real = [op for op in prog if op[0] not in cx.CLIENT_PSEUDO]
     for k, op in enumerate(prog):
+        if op[0] == "client":
+            continue
         before = {cid: snap(c) for cid, c in pool.items()}
-        r = cx.apply_op(pool, op, params)
+        if op[0] in ("scrub", "scribble"):
+            # no call is made: the client overwrites a container it handed over earlier / writes into something it was
+            # handed.  Every live object must be what it was.
+            if op[0] == "scrub":
+                what = (f"the client overwrote ({op[2]}) its own {CONTAINER[op[1]]}, handed to the library earlier"
+                        if client is not None and client.scrub(op[1], op[2]) else None)
+            else:
+                w = cx.scribble(pool, op[1], op[2], op[3])
+                what = w and f"the client wrote into ({op[3]}) {w} of object {op[1]}"
+            if what:
+                for cid, b in before.items():
+                    d = cx.diff(b, snap(pool[cid]))
+                    if d is not None:
+                        probs.append(f"oracle: step #{k} {op} - no call was made, {what} - changed object {cid} ({d})")
+                        return probs
+            continue
+        n_arg = len(client.problems) if client is not None else 0
+        r = cx.step(pool, op, params, client)
         res.append(r)
         after = {cid: snap(c) for cid, c in pool.items()}
         snaps_after.append(after)
+        if client is not None and len(client.problems) > n_arg:
+            probs.append(f"oracle: call #{k} {op[:2]} modified its argument: {client.problems[-1]}")
+            return probs
         tgt = op[1]
         for cid, b in before.items():
             if cid not in after:
@@ -630,7 +665,7 @@ def run_case(ctx: Ctx, prog: list, ids: list, model: bool = True) -> list[str]:
     mres = ctx.model.call({"op": "circ", "prog": cx.for_model(prog), "observe": live, "each": True})
     for k, (a, b) in enumerate(zip(res, mres["results"])):
         if a != b:
-            probs.append(f"corr: call #{k} {prog[k][:5]} impl={a} model={b}")
+            probs.append(f"corr: call #{k} {real[k][:5]} impl={a} model={b}")
             return probs
     for k, (ia, ma) in enumerate(zip(snaps_after, mres["snaps"])):
         for cid, o in ia.items():
@@ -639,16 +674,130 @@ def run_case(ctx: Ctx, prog: list, ids: list, model: bool = True) -> list[str]:
                 continue
             if o["n"] != m["n"] or o["input_modes"] != m["input_modes"] or \
                     sorted(map(tuple, o["in_heralds"])) != sorted(map(tuple, m["in_heralds"])):
-                probs.append(f"corr: after call #{k} {prog[k][:4]} object {cid}: n/input_modes/heralds differ from the model")
+                probs.append(f"corr: after call #{k} {real[k][:4]} object {cid}: n/input_modes/heralds differ from the model")
                 return probs
             if "U_full" in o and not mat_close(o["U_full"], parse_mat(m["U_full"])):
-                probs.append(f"corr: after call #{k} {prog[k][:4]} object {cid}: U_full differs from the model")
+                probs.append(f"corr: after call #{k} {real[k][:4]} object {cid}: U_full differs from the model")
                 return probs
             if "U_full" not in o:
-                probs.append(f"corr: after call #{k} {prog[k][:4]} object {cid} does not compile "
+                probs.append(f"corr: after call #{k} {real[k][:4]} object {cid} does not compile "
                              f"({o.get('U_error')}); the model has a matrix")
                 return probs
     return probs
+
+
+CONTAINER = {"unitary": "ndarray work buffer(s) (Unitary(buffer))", "swaps": "dictionary (mode_swaps(dict))",
+             "modes": "list of modes (barrier(list))"}
+
+
+# --------------------------------------------------------------------------- caller-owned data
+
+
+def with_client(ctx: Ctx, rng, prog: list, cfg: dict | None = None) -> list:
+    """the history is run by a client that re-uses its own containers (circgen_ext.Client) and overwrites / clears /
+    refills them at 1-4 points, mostly right behind a call that was given one or that copied an object built from one;
+    now and then it writes into a matrix / dict the library handed out"""
+    out = list(prog)
+    for _ in range(rng.choice([1, 2, 2, 3, 4])):
+        pos = len(out) if rng.random() < 0.2 else rng.randint(1, len(out))
+        if rng.random() < 0.2:
+            live = [op[1] for op in out[:pos] if op[0] in ("new", "unitary", "copy", "copyf", "plus")]
+            if not live:
+                continue
+            ins = ["scribble", rng.choice(live), rng.choice(cx.SCRIBBLE_ATTR), rng.choice(cx.SCRIBBLE_HOW)]
+        else:
+            behind = [i + 1 for i, op in enumerate(out) if op[0] in ("unitary", "swaps", "barrier", "add", "copy", "plus")]
+            if behind and rng.random() < 0.7:
+                pos = rng.choice(behind)
+            kind = {"unitary": "unitary", "add": "unitary", "copy": "unitary", "plus": "unitary", "swaps": "swaps",
+                    "barrier": "modes"}.get(out[pos - 1][0])
+            ins = cx.rand_scrub(rng, kind if kind and rng.random() < 0.8 else None)
+        out.insert(pos, ins)
+    ctx.count("history:with-client-owned-containers")
+    return [["client", cfg or cx.rand_client_cfg(rng)], *out]
+
+
+def _scrub(b: cx.Book, kind: str = "unitary") -> None:
+    b.prog.append(cx.rand_scrub(b.rng, kind))
+
+
+def shape_client_blocks(b: cx.Book) -> None:
+    """all unitary blocks are read from one work buffer: a block in a cell, the cell in two parents, the buffer
+    overwritten after Unitary(buf), after add, after a second block of the same size was read from it"""
+    rng = b.rng
+    sz = rng.randint(1, 3)
+    b.unitary("l0", sz)
+    if rng.random() < 0.5:
+        _scrub(b)
+    _cell(b, "b0", "l0", group=rng.random() < 0.7)
+    _scrub(b)
+    n = b.free["b0"] + rng.randint(1, 2)
+    b.new("P0", n)
+    b.add("P0", "b0", b.place_mode("P0", "b0", True), False)
+    b.unitary("l1", sz)  # the buffer is refilled: l0, b0, P0 keep the first block
+    b.add("P0", "l1", b.place_mode("P0", "l1"), rng.random() < 0.5)
+    b.new("P1", n)
+    b.add("P1", "b0", b.place_mode("P1", "b0"), True)
+    b.add("P1", "l0", b.place_mode("P1", "l0"), False)
+    _scrub(b)
+    b.prim("P0")
+    b.unitary("l2", min(n, sz + 1))
+    b.add("P1", "l2", b.place_mode("P1", "l2"), rng.random() < 0.5)
+    _scrub(b)
+
+
+def shape_client_family(b: cx.Book) -> None:
+    """copies, frozen copies and sums of circuits that hold blocks read from the work buffer; the buffer is overwritten
+    after every derivation; the swaps dictionary and the barrier list are one dict / list"""
+    rng = b.rng
+    n = rng.randint(3, 4)
+    sz = rng.randint(2, n)
+    b.new("a0", n)
+    b.unitary("l0", sz)
+    b.add("a0", "l0", b.place_mode("a0", "l0"), rng.random() < 0.5)
+    b.swap("a0")
+    _scrub(b, "swaps")
+    b.new("b0", n)
+    b.unitary("l1", sz)
+    b.add("b0", "l1", b.place_mode("b0", "l1"), rng.random() < 0.5)
+    b.swap("b0")
+    b.prog.append(["barrier", "b0", sorted(rng.sample(range(n), 2))])
+    _scrub(b, "modes")
+    b.copy("k0", "a0")
+    _scrub(b)
+    b.copyf("f0", "b0")
+    b.plus("s0", "a0", "b0")
+    _scrub(b)
+    b.plus("t0", "b0", "k0")
+    b.swap("s0")
+    _scrub(b, "swaps")
+    b.prog.append([rng.choice(["unpack", "compress"]), rng.choice(["s0", "t0", "k0"])])
+    b.unitary("l2", sz)
+    b.add("t0", "l2", b.place_mode("t0", "l2"), False)
+    _scrub(b)
+
+
+def shape_client_handed_out(b: cx.Book) -> None:
+    """the client post-processes in place what it was handed: U, U_full, heralds of a parent, of the cell inside it, of
+    the block inside the cell"""
+    rng = b.rng
+    b.unitary("l0", rng.randint(1, 2))
+    _cell(b, "b0", "l0", group=True)
+    b.small_heralded("h0")
+    n = b.free["b0"] + rng.randint(1, 2)
+    b.new("P0", n)
+    b.add("P0", "b0", b.place_mode("P0", "b0"), rng.random() < 0.5)
+    b.add("P0", "h0", rng.randint(0, n - 1), True)
+    for cid in rng.sample(["P0", "b0", "l0", "h0"], 3):
+        b.prog.append(["scribble", cid, rng.choice(cx.SCRIBBLE_ATTR), rng.choice(cx.SCRIBBLE_HOW)])
+        if rng.random() < 0.5:
+            b.prim(rng.choice(["P0", "b0"]))
+    b.copy("k0", "P0")
+    b.prog.append(["scribble", "k0", "U_full", "zero"])
+    b.prog.append(["scribble", "P0", "heralds", "elem"])
+
+
+CLIENT_CORPUS = [shape_client_blocks, shape_client_family, shape_client_handed_out]
 
 
 # --------------------------------------------------------------------------- read-only consumers
@@ -660,6 +809,9 @@ def heralded_sub(rng):
     s.bs(1, 2, reflectivity=0.3)
     s.herald(rng.choice([0, 1]), 2, rng.choice([0, 2]))
     return s
+
+
+STATE_MAY_KEEP_THE_CALLERS_LIST = True
 
 
 def consumer_probes(ctx: Ctx, rng) -> None:
@@ -696,7 +848,8 @@ def consumer_probes(ctx: Ctx, rng) -> None:
         cell.ps(0, lw.Parameter(0.2, label="phi"))
         cell.add(blk, 0, group=True, name="blk")
         c.add(cell, rng.choice([1, 2]), group=bool(rng.getrandbits(1)))
-        st = lw.State([1, 0, 1, 0])
+        occ = [1, 0, 1, 0]  # the client's own list
+        st = lw.State(occ)
         st_list = st.s
         objs = {"c": c, "sub": sub, "cell": cell, "blk": blk}
         check("Simulator.simulate", objs, lambda: emulator.Simulator(c).simulate(st))
@@ -711,6 +864,20 @@ def consumer_probes(ctx: Ctx, rng) -> None:
         if st.s != st_list:
             ctx.violation("oracle: a State passed to a consumer was modified", {"state": st_list},
                           sig={"kind": "consumer-state"})
+        if occ != st_list:
+            ctx.violation("oracle: the list a State was built from was modified by a consumer the State was passed to",
+                          {"state": st_list, "list": list(occ)}, sig={"kind": "consumer-state-list"})
+        # the client re-uses its list for the next state.  State(list) keeps the caller's list by reference on the
+        # unchanged library (sdk/state/state.py: "If already list then assign to attribute"), so this does change the
+        # State: counted and reported to the maintainers of the framework, not raised (see STATE_MAY_KEEP_THE_CALLERS_LIST)
+        occ[0], occ[1] = 0, 1
+        if st.s != st_list:
+            ctx.count("client:State(list)-keeps-the-caller's-list: refilling the list changes the State (reported, not raised)")
+            if not STATE_MAY_KEEP_THE_CALLERS_LIST:
+                ctx.violation("oracle: a State changed when the client re-used the list it was built from",
+                              {"state": st_list, "now": st.s}, sig={"kind": "client-state-list"})
+        else:
+            ctx.count("client:State(list)-has-its-own-copy")
         ll = lw.Circuit(3)
         ll.bs(0, 1)
         ll.add(heralded_sub(rng), 1)
@@ -794,7 +961,9 @@ def _report(ctx: Ctx, prog: list, ids: list, probs: list, model: bool) -> None:
     oracle = [p for p in sprobs if p.startswith("oracle")]
     rep = {"program": small, "observe": ids, "problems": sprobs, "model": model}
     if oracle:
-        kind = "failed-call-changed" if "raised" in oracle[0] else "non-target-changed"
+        kind = ("argument-modified" if "modified its argument" in oracle[0] else
+                "changed-without-a-call" if "no call was made" in oracle[0] else
+                "failed-call-changed" if "raised" in oracle[0] else "non-target-changed")
         ctx.violation(oracle[0], rep, sig={"kind": kind, "ops": sorted({o[0] for o in small})})
     else:
         ctx.disagreement(sprobs[0], rep)
@@ -803,15 +972,22 @@ def _report(ctx: Ctx, prog: list, ids: list, probs: list, model: bool) -> None:
 def _one(ctx: Ctx, prog: list, ids: list, model: bool, sample: bool, blocks: bool) -> None:
     probs = run_case(ctx, prog, ids, model)
     res = _LAST.get("results", [])
-    adds = [op for op, r in zip(prog, res) if op[0] == "add" and r == "ok"]
+    real = [op for op in prog if op[0] not in cx.CLIENT_PSEUDO]
+    adds = [op for op, r in zip(real, res) if op[0] == "add" and r == "ok"]
     args = [op[2] for op in adds]
-    nontriv = len(adds) >= 2 and (len(set(args)) < len(args) or any(op[1] in args for op in prog if op[0] != "add"))
+    nontriv = len(adds) >= 2 and (len(set(args)) < len(args) or any(op[1] in args for op in real if op[0] != "add"))
     for op in prog:
         ctx.count("op:" + op[0])
         if cx.param_key(op) is not None:
             ctx.count("op:with-Parameter")
+        if op[0] == "client":
+            ctx.count("client:unitary-blocks-from=" + op[1].get("unitary", "buffer") + ":oracle-only")
+        elif op[0] == "scrub":
+            ctx.count(f"client:scrub:{op[1]}:{op[2]}")
+        elif op[0] == "scribble":
+            ctx.count(f"client:scribble:{op[2]}:{op[3]}")
     if blocks:
-        block_stats(ctx, prog, res)
+        block_stats(ctx, real, res)
     ctx.case(repr(prog), nontriv, sample=prog if sample else None)
     if probs:
         _report(ctx, prog, ids, probs, model)
@@ -828,7 +1004,11 @@ def run(ctx: Ctx) -> None:
                 "construction calls over 2-5 live circuit objects, objects reused as arguments (including "
                 "self-addition), ~20% rejected calls; all objects snapshotted after every call; non-trivial = history "
                 "contains two accepted adds and an argument that is reused or edited; distinct = distinct history; plus "
-                "read-only consumer probes")
+                "read-only consumer probes; (4) caller-owned data: a third of all histories (and three directed shapes) are "
+                "run by a client that reads every unitary block from ONE ndarray work buffer (per size / corner of a large "
+                "array / column-major), uses one dict for all mode_swaps and one list for all barriers, overwrites / clears "
+                "/ refills them between calls and writes into handed-out U / U_full / heralds: no live object may change "
+                "without a call, and no call may modify the container it was given")
     rng = ctx.rng
     # 1. corpus: every shape, several random instances each, always first, always with the model
     for rep in range(ctx.n(2, 25)):
@@ -838,7 +1018,17 @@ def run(ctx: Ctx) -> None:
             b = cx.Book(rng, p_param=0.25)
             shape(b)
             ctx.count("corpus:" + shape.__name__)
-            _one(ctx, b.prog, b.ids, True, sample=(rep == 0 and shape is shape_tile), blocks=True)
+            # every other instance is run by a client that re-uses and overwrites its containers
+            prog = with_client(ctx, rng, b.prog) if rep % 2 else b.prog
+            _one(ctx, prog, b.ids, True, sample=(rep == 0 and shape is shape_tile), blocks=True)
+        for shape in CLIENT_CORPUS:
+            if ctx.out_of_time():
+                break
+            b = cx.Book(rng, p_param=0.25)
+            shape(b)
+            ctx.count("corpus:" + shape.__name__)
+            cfg = {"unitary": ["buffer", "view", "fortran"][rep % 3], "swaps": "shared", "modes": "shared"}
+            _one(ctx, [["client", cfg], *b.prog], b.ids, True, sample=False, blocks=True)
     # 1b. families: directed shapes, then random ones (half of them with the model)
     for rep in range(ctx.n(4, 30)):
         for shape in FAMILY:
@@ -847,11 +1037,14 @@ def run(ctx: Ctx) -> None:
             b = cx.Book(rng, p_param=0.25)
             shape(b, ctx)
             ctx.count("corpus:" + shape.__name__)
-            _one(ctx, b.prog, b.ids, rep % 2 == 0, sample=False, blocks=False)
+            prog = with_client(ctx, rng, b.prog) if rep % 4 >= 2 else b.prog
+            _one(ctx, prog, b.ids, rep % 2 == 0, sample=False, blocks=False)
     for i in range(ctx.n(32, 400)):
         if ctx.out_of_time():
             break
         prog, ids = gen_family(ctx, rng)
+        if i % 3 == 1:
+            prog = with_client(ctx, rng, prog)
         model = i % 2 == 0
         ctx.count("family:with-model" if model else "family:oracle-only")
         _one(ctx, prog, ids, model, sample=i == 1, blocks=False)
@@ -860,6 +1053,8 @@ def run(ctx: Ctx) -> None:
         if ctx.out_of_time():
             break
         prog, ids = gen_blocks(ctx, rng)
+        if i % 5 in (1, 3):
+            prog = with_client(ctx, rng, prog)
         model = i % 3 == 0
         ctx.count("blocks:with-model" if model else "blocks:oracle-only")
         _one(ctx, prog, ids, model, sample=False, blocks=True)
@@ -868,6 +1063,8 @@ def run(ctx: Ctx) -> None:
         if ctx.out_of_time():
             break
         prog, ids = gen_history(ctx, rng)
+        if i % 3 == 2:
+            prog = with_client(ctx, rng, prog)
         _one(ctx, prog, ids, True, sample=i < 1, blocks=False)
     consumer_probes(ctx, rng)
 
